@@ -196,6 +196,9 @@ func newSorts(keyMode bool) *Sorts {
 		"(declare-fun strlen (Int) Int)",
 		"(assert (forall ((s Int)) (! (>= (strlen s) 0) :pattern ((strlen s))))) ;bg",
 		"(assert (= (strlen 0) 0))",
+		"(declare-fun klen (Int) Int)",
+		"(assert (forall ((k Int)) (! (and (>= (klen k) 0) (= (= (klen k) 0) (= k 0))) :pattern ((klen k))))) ;bg",
+		"(assert (= (klen 0) 0))",
 	)
 	return s
 }
